@@ -676,6 +676,58 @@ func formatLayers(tier string) []Layer {
 			},
 		})
 	}
+	// V5: every field width (padding of every length), against fmt on the same float64
+	{
+		fvals := []float64{1.5, -0.0078125, 123456.75, 0, math.Inf(1), math.Inf(-1), -2}
+		maxW := 300
+		if thorough {
+			maxW = 1100
+		}
+		layers = append(layers, Layer{
+			Name:   "V5-field-widths",
+			Units:  len(fvals),
+			Bounds: fmt.Sprintf("%d float64-exact values × every width 0..%d × flags {none, -, 0, +, space, +0, -0} × verbs/precisions {%%.2f, %%e, %%.3g, %%v}: identical to fmt.Sprintf of the float64 (%%v: to the reference formatter)", len(fvals), maxW),
+			Run: func(c *Ctx, u int) {
+				f := fvals[u]
+				var xo *Opnd
+				if math.IsInf(f, 0) {
+					xo = mkSpecial(fInf, f < 0, 20, 0)
+				} else if v := valOfFloat(f); v.Form == fFinite {
+					xo = mkCoef(v.Neg, v.Coef, v.E10, 40, 0)
+				} else {
+					xo = mkSpecial(v.Form, v.Neg, 20, 0)
+				}
+				x := xo.Build()
+				for w := 0; w <= maxW; w++ {
+					for _, fl := range []string{"", "-", "0", "+", " ", "+0", "-0"} {
+						for _, vp := range []string{".2f", "e", ".3g", "v"} {
+							if c.Skip() {
+								continue
+							}
+							format := "%" + fl + strconv.Itoa(w) + vp
+							var got string
+							pv, _ := protect(func() { got = fmt.Sprintf(format, x) })
+							key := fmt.Sprintf("Sprintf(%q) x=%v", format, f)
+							if pv != nil {
+								c.Fail(key, fmt.Sprintf("panic: %v", pv))
+								continue
+							}
+							c.NonTrivial()
+							var want string
+							if vp == "v" {
+								want = refPad(refText(xo.V, xo.Prec, xo.Mode, 'g', -1), strings.Contains(fl, "+"), strings.Contains(fl, " "), strings.Contains(fl, "0"), strings.Contains(fl, "-"), w, true)
+							} else {
+								want = fmt.Sprintf(format, f)
+							}
+							if got != want {
+								c.Fail(key, fmt.Sprintf("got %q (%d bytes), want %q (%d bytes)", got, len(got), want, len(want)))
+							}
+						}
+					}
+				}
+			},
+		})
+	}
 	// V2: fmt verbs × flags × width × precision
 	{
 		var vals []*Opnd
